@@ -10,6 +10,8 @@ let parse_in (ins : string list) : listener * tunnel * inner list =
       (* an optional A<alpn><h2config> token is TLS configuration of the tunnel, not a model input:
          HTTP/1.1 traffic must be handled identically in every combination *)
       let rest = (match rest with a :: r when String.length a = 3 && a.[0] = 'A' -> r | _ -> rest) in
+      (* Z = the client pipelines its first requests: not a model input either *)
+      let rest = (match rest with "Z" :: r -> r | _ -> rest) in
       let l' = (match l with "Lp" -> LPlain | "Ls" -> LShaped | "Lt" -> LTls | "Lx" -> LShapedTls | _ -> raise (Bad l)) in
       (* an optional third character is the client's timing of the first tunnel bytes relative to the
          CONNECT response (b pipelined, c split): not a model input, the proxy must behave the same *)
@@ -97,6 +99,7 @@ let judge _name ins outs =
     let want = run true l t reqs in
     let toks = (match ins with _ :: _ :: a :: r when String.length a = 3 && a.[0] = 'A' -> r
                            | _ :: _ :: r -> r | _ -> []) in
+    let toks = (match toks with "Z" :: r -> r | _ -> toks) in
     match c05_fail l t reqs os with
     | Some c ->
         VPropfail (clause_name c,
